@@ -127,10 +127,13 @@ def run(rep, pdb, tier):
         if r is not None:
             from .c08 import rule_recurrence
             rule_recurrence(rep, sv, name, r)
+        # ---- loop-carried state is refreshed on every iteration
+        rule_carried(rep, sv, name)
         # ---- breakdown-free: the scalars the recurrences divide by / give up on must be definite on the claimed class
         rule_breakdown_free(rep, sv, name)
     rep.floor("breakdown-exact/", 4)
     rep.floor("breakdown-free/", 4)
+    rep.floor("carried/", 4)
     rep.floor("residual-tracks-iterate/", 5)
     rep.floor("ok-tested/", 8)
     rep.floor("tested-vector/", 6)
@@ -141,6 +144,134 @@ def run(rep, pdb, tier):
                         "an inner product of a vector with itself (or, for CG on SPD systems, of p with A*p) cannot, an inner product of two different vectors and the norm of a left (A^T-)Lanczos vector can",
                         "NOT decided (not applicable to static analysis): the rate of convergence (O(n) iterations) and agreement with the direct solution to tol*cond(A)"]
     return {}
+
+
+def rule_carried(rep, sv, name):
+    """Every local that an iteration reads before (re)assigning it - a value carried over from the previous iteration, like
+    rho_1, alpha, omega, the direction vectors - and that the loop assigns at all, is assigned on EVERY path that reaches the
+    end of the body.  A carried scalar refreshed only under the first-iteration test (or only in one arm) leaves the later
+    iterations with a stale coefficient: the recurrence is then not the method's."""
+    ctx, lp = sv.ctx, sv.main
+    body = lp["body"]
+    inside = set()
+    for n in walk(body):
+        if n.get("k") == "Let":
+            for b_ in walk(n.get("pat") or {}):
+                if b_.get("k") == "Bind":
+                    inside.add(b_.get("v"))
+        if n.get("k") in ("Bind",) and n.get("v") is not None and n.get("_p") is not None and n["_p"].get("k") in ("For", "Arm", "Closure"):
+            inside.add(n["v"])
+    if lp.get("k") == "For":
+        for b_ in walk(lp.get("pat") or {}):
+            if b_.get("k") == "Bind":
+                inside.add(b_.get("v"))
+    carried, ever = set(), set()
+
+    def place(e):
+        e = strip(e)
+        while e.get("k") in ("AddrOf",) or (e.get("k") == "Unary" and e.get("op") == "*"):
+            e = strip(e["e"])
+        return e
+
+    # state = (must, may): locals assigned on every / on some path of this iteration so far.  A read of a local that NO path has
+    # assigned yet sees the value of the previous iteration: the local is carried.
+    def reads(e, st):
+        for y in walk(e):
+            if y.get("k") == "Local" and y.get("v") not in inside and y.get("v") not in st[1]:
+                b_ = ctx.binds.get(y["v"])
+                if b_ is not None and b_.kind == "let":
+                    carried.add(y["v"])
+
+    def add(st, v):
+        ever.add(v)
+        return (st[0] | {v}, st[1] | {v})
+
+    def callee_is_copy(c):
+        from .common import callee_path
+        from .c08 import IDP
+        return callee_path(c) == IDP
+
+    def expr(e, st):
+        """returns (state_after, falls_through)"""
+        e0 = strip(e)
+        k = e0.get("k")
+        if k in ("Assign", "AssignOp"):
+            tgt = place(e0["l"])
+            reads(e0["r"], st)
+            if tgt.get("k") == "Local":
+                if k == "AssignOp":
+                    reads(tgt, st)
+                return add(st, tgt["v"]), True
+            reads(e0["l"], st)
+            return st, True
+        if k == "If":
+            reads(e0["cond"], st)
+            s1, f1 = block(e0["then"], st)
+            s2, f2 = block(e0["else"], st) if e0.get("else") is not None else (st, True)
+            if f1 and f2:
+                return (s1[0] & s2[0], s1[1] | s2[1]), True
+            if f1:
+                return s1, True
+            if f2:
+                return s2, True
+            return st, False
+        if k == "Block":
+            return block(e0, st)
+        if k in ("Ret", "Break", "Continue"):
+            if e0.get("e") is not None:
+                reads(e0["e"], st)
+            return st, False
+        if k in ("For", "While", "Loop"):
+            reads(e0, st)                            # may not execute: its assignments count as `may` only
+            may = set(st[1])
+            for y in walk(e0):
+                if y.get("k") in ("Assign", "AssignOp") and place(y["l"]).get("k") == "Local":
+                    ever.add(place(y["l"])["v"])
+                    may.add(place(y["l"])["v"])
+            return (st[0], may), True
+        if k in ("MethodCall", "Call"):
+            args = list(e0.get("args", [])) + ([e0["recv"]] if k == "MethodCall" else [])
+            muts = []
+            for a in args:
+                a0 = strip(a)
+                is_mut = a0.get("k") == "AddrOf" and a0.get("mut") and place(a0).get("k") == "Local"
+                if is_mut:
+                    muts.append(place(a0))
+                    if callee_is_copy(e0):
+                        continue                      # identity_preconditioner(&src, &mut dst): dst is written, not read
+                reads(a, st)
+            for m_ in muts:
+                st = add(st, m_["v"])
+            return st, str(e0.get("ty")) != "!"
+        reads(e0, st)
+        return st, str(e0.get("ty")) != "!"
+
+    def block(blk, st):
+        blk = strip(blk)
+        if blk.get("k") != "Block":
+            return expr(blk, st)
+        for s_ in blk.get("stmts", []):
+            if s_.get("k") == "Let":
+                if s_.get("init") is not None:
+                    st, ft = expr(s_["init"], st)
+                    if not ft:
+                        return st, False
+                continue
+            st, ft = expr(s_["e"], st)
+            if not ft:
+                return st, False
+        if blk.get("expr") is not None:
+            return expr(blk["expr"], st)
+        return st, True
+
+    if lp.get("k") == "While":
+        reads(lp["cond"], (set(), set()))
+    end, ft = block(body, (set(), set()))
+    stale = sorted(v for v in carried if v in ever and v not in end[0]) if ft else []
+    names = [ctx.binds[v].name if v in ctx.binds and getattr(ctx.binds[v], "name", None) else str(v) for v in stale]
+    rep.add("carried/%s" % name, "every local carried from one iteration to the next that the loop assigns at all is assigned on every path reaching the end of the body "
+            "(a recurrence scalar refreshed only under the first-iteration test is stale from the third iteration on)", not stale, lp,
+            "carried over: %d, assigned in the loop: %d, not refreshed on every path: %s" % (len(carried), len(carried & ever), names))
 
 
 def rule_breakdown_free(rep, sv, name):
